@@ -415,3 +415,10 @@ def rule_exittable(ctx, R):
 
 
 RULES.append(("C13.EXITTABLE", "the status a program asks for: popping stack 1 ends with status 0, stack 2 with status 1, after flushing both streams (shared with C01.POP)", rule_exittable))
+
+
+# rules of other properties re-run under this property's name; resolved by rules/main.py (see rules/share.py)
+DEFERRED_BUNDLES = [
+    {'prop': 'C13', 'tag': 'INT', 'module': 'p_c05', 'only': ('CTOR', 'DIVLESS', 'LIMBS', 'NORMALISE', 'CONSTS'), 'skip': (), 'why': 'the audited panic sites of the numeric core (NUMERIC table: limb vectors are never empty, result vectors are long enough) rest on the lengths these rules decide'},
+    {'prop': 'C13', 'tag': 'STATE', 'module': 'p_c02', 'only': ('OPTSTATE', 'SLOTS'), 'skip': (), 'why': 'the audited index sites of the vector-backed state (AUDITED: STACK, push_stack) are safe because push_stack tests its bound and optimize() hands out only slots below the size it allocates'},
+]
